@@ -75,6 +75,8 @@ impl<K: Clone> Ord for ReadyEvent<K> {
 struct StreamWaker<S, K: Clone> {
     inner: Arc<Mutex<QueueInner<S, K>>>,
     event: ReadyEvent<K>,
+    /// Set once this waker has fired, possibly from inside the very poll it was created for
+    woken: atomic::AtomicBool,
 }
 
 impl<S, K> ArcWake for StreamWaker<S, K>
@@ -83,6 +85,7 @@ where
     K: Clone + Send + Sync,
 {
     fn wake_by_ref(arc_self: &Arc<Self>) {
+        arc_self.woken.store(true, atomic::Ordering::Release);
         let mut inner = arc_self.inner.lock();
         inner.ready_queue.push(arc_self.event.clone());
         if let Some(waker) = inner.waker.take() {
@@ -125,6 +128,7 @@ where
             let waker = Arc::new(StreamWaker {
                 inner: fair_queue.inner.clone(),
                 event: event.clone(),
+                woken: atomic::AtomicBool::new(false),
             });
             let waker_ref = waker_ref(&waker);
             let mut cx = Context::from_waker(&waker_ref);
@@ -148,6 +152,13 @@ where
                 Poll::Pending => {
                     let mut inner = fair_queue.inner.lock();
                     inner.streams.insert(event.key, io_stream);
+                    if waker.woken.load(atomic::Ordering::Acquire) {
+                        // The stream asked to be polled again while it was being polled (this is what
+                        // tokio's cooperative budgeting does once the task's budget is used up): its
+                        // event is back in the ready queue and our task has been woken. Yield to the
+                        // executor instead of spinning on a stream that cannot make progress now.
+                        return Poll::Pending;
+                    }
                     continue;
                 }
             }
